@@ -10,6 +10,8 @@ from ..astutil import (
 )
 from ..oracles import load as load_oracle
 from ..report import Registry, chain, sub
+from ._helpers_rob_e1 import guards_imply, once_bound, resolve_name
+from ._helpers_rob_g1 import normal_form
 
 R = Registry(
     "C10",
@@ -113,11 +115,12 @@ def r1(ctx):
                 want = oracle[name]
                 # the value must be what the accessor returns
                 returned = False
+                defs = once_bound(f.node)
                 for r in walk_local(f.node):
                     if isinstance(r, ast.Return) and r.value is not None:
-                        v = r.value
+                        v = resolve_name(r.value, defs)     # `row = self._only_one_row(..); return row`
                         if isinstance(v, ast.Await):
-                            v = v.value
+                            v = resolve_name(v.value, defs)
                         if v is c:
                             returned = True
                 diffs = [f"{k}={got[k]} (documented: {want[k]})" for k in FLAG_NAMES if got[k] != want[k]]
@@ -130,6 +133,19 @@ def r1(ctx):
     ctx.require(n > 0, "no single-row accessor found")
 
 
+def _final_helper(ctx):
+    """selects the callees worth inlining: module functions and methods that no class of the package overrides (an
+    overridable primitive such as _soft_close / _fetchone_impl is a call, not a helper: its base body is a stub)"""
+    def want(callee):
+        if callee.cls is None:
+            return True
+        for sub_ in ctx.index.subclasses(callee.cls):
+            if callee.name in sub_.all_defs:
+                return False
+        return True
+    return want
+
+
 def _guards(g, node_id):
     return guard_atoms(g.edge_guards(node_id))
 
@@ -139,10 +155,17 @@ def _guards(g, node_id):
              "set); MultipleResultsFound only under raise_for_second_row; the result is closed before every "
              "normal return of a row and before raising for a second row; column 0 is projected only under scalar")
 def r2(ctx):
-    f, params = _flag_params(ctx)
+    f0, params = _flag_params(ctx)
     errs = load_oracle("result_api_flags.json")["errors"]
-    g = ctx.cfg(f)
-    base = f.key
+    # helpers of the class / module called at statement level are inlined (one or two levels) and pure aliases
+    # (`onerow = self._fetchone_impl`, `close = self._soft_close`) resolved: the path queries run on that normal form
+    f = normal_form(ctx, f0, depth=2, want=_final_helper(ctx))
+    g = ctx.cfg(f.node)
+    base = f0.key
+
+    def implied(nid, atom, value):
+        return guards_imply(g.edge_guards(nid), atom, value)
+
     raises = {}
     for nid in g.find(lambda n: n.kind == "stmt" and isinstance(n.stmt, ast.Raise) and n.stmt.exc is not None):
         nm = (raised_name(g.node(nid).stmt) or "").rsplit(".", 1)[-1]
@@ -152,7 +175,7 @@ def r2(ctx):
         exc_name = errs[flag]
         nodes = raises.get(exc_name, [])
         ctx.require(nodes, f"_only_one_row never raises {exc_name}")
-        bad = [g.node(n).describe() for n in nodes if (flag, True) not in _guards(g, n)]
+        bad = [g.node(n).describe() for n in nodes if not implied(n, flag, True)]
         ctx.check(not bad, f"{base}:{exc_name}-only-under-{flag}",
                   f"{exc_name} can be raised although {flag} is False: {bad}",
                   f"{len(nodes)} raise site(s), all dominated by `{flag}`", f.loc)
@@ -162,23 +185,24 @@ def r2(ctx):
     ctx.require(fetch_binds, "first row fetch not found")
     first_fetch = fetch_binds[0]
     row = first_fetch[0]
-    tests = [n.id for n in g.nodes if n.kind == "test" and unparse(n.stmt.test).replace(" ", "") in (f"{row}isNone", f"{row}isnotNone")]
+    tests = [n.id for n in g.nodes if n.kind == "test" and f"{row}isNone" in unparse(n.stmt.test).replace(" ", "").replace("isnot", "is")]
     ctx.require(tests, f"`if {row} is None` test not found")
     none_returns = [nid for nid in g.find(lambda n: n.kind == "stmt" and isinstance(n.stmt, ast.Return))
-                    if (f"{row} is None", True) in _guards(g, nid)]
-    bad = [g.node(n).describe() for n in none_returns if ("raise_for_none", False) not in _guards(g, n)]
+                    if implied(nid, f"{row} is None", True)]
+    bad = [g.node(n).describe() for n in none_returns if not implied(n, "raise_for_none", False)]
     ctx.check(not bad, f"{base}:missing-row-returns-none-only-without-raise_for_none",
               f"with no row, _only_one_row can return instead of raising although raise_for_none is set: {bad}",
               f"{len(none_returns)} return(s) under `{row} is None`, dominated by `not raise_for_none`", f.loc)
     # (c) closing: after a first row was fetched, every normal exit passes a close or a further fetch
-    t0 = min(tests, key=lambda i: g.node(i).lineno)
-    pos_is_none = "isnot" not in unparse(g.node(t0).stmt.test).replace(" ", "")
-    have_row = [b for b, lab in g.succ[t0] if lab == ("false" if pos_is_none else "true")]
+    # shape independent: from the first fetch on, every normal exit is either a no-row return (under `row is None`; the
+    # hard-closing fetch closed the result) or passes a close / a further hard-closing fetch
+    have_row = g.nodes_for(first_fetch[1])
+    ctx.require(have_row, "first row fetch not in the CFG")
     closes = g.find_calls("_soft_close")
     fetch_nodes = [n.id for n in g.nodes if n.stmt is not None and n.kind in ("stmt", "test") and isinstance(n.stmt, ast.stmt)
                    and any(_is_fetch(c, f) for c in _own_calls(n)) and n.stmt is not first_fetch[1]]
     ctx.require(closes, "_only_one_row never calls _soft_close")
-    w = g.must_pass(have_row, [g.exit], set(closes) | set(fetch_nodes))
+    w = g.must_pass(have_row, [g.exit], set(closes) | set(fetch_nodes) | set(none_returns))
     ctx.check(w is None, f"{base}:closed-before-returning-a-row",
               "a row can be returned while the result stays open (neither _soft_close() nor an exhausting second fetch on the path)",
               f"every normal exit passes _soft_close() ({len(closes)} sites) or a further hard-closing fetch ({len(fetch_nodes)} sites)",
@@ -202,7 +226,7 @@ def r2(ctx):
         idx = r.value.slice
         if not (isinstance(idx, ast.Constant) and idx.value == 0 and unparse(r.value.value) == row):
             good = False
-        if ("scalar", True) not in _guards(g, nid):
+        if not implied(nid, "scalar", True):
             good = False
     ctx.check(good, f"{base}:scalar-projects-column-0",
               f"`return {row}[0]` is missing, uses another index, or is not dominated by `scalar`",
@@ -246,6 +270,7 @@ def r3(ctx):
             ctx.violation(key, f"FilterResult does not define {prim}: the view would not read from its parent", filt.loc)
             continue
         ctx.functions_analysed.add(f.key)
+        f = normal_form(ctx, f, depth=0)     # pure aliases (`real = self._real_result`) resolved
         cs = [c for c in calls_in(f.node) if call_name(c) == f"self._real_result.{prim}"]
         other = [call_name(c) for c in calls_in(f.node) if (call_name(c) or "").startswith("self._real_result.") and call_name(c) != f"self._real_result.{prim}"]
         good = len(cs) == 1 and not other
@@ -272,6 +297,7 @@ def r3(ctx):
             ps = [p for p in init.params if p != "self"]
             ctx.require(ps, f"{cls.key}.__init__ takes no result argument")
             rp = ps[0]
+            init = normal_form(ctx, init, depth=0)     # `metadata = result._metadata; self._metadata = metadata`
             stores = [(n.targets, n.value) for n in walk_local(init.node) if isinstance(n, ast.Assign)]
             rr = [v for tg, v in stores for t in tg if dotted(t) == "self._real_result"]
             md = [v for tg, v in stores for t in tg if dotted(t) == "self._metadata"]
@@ -306,8 +332,9 @@ def r3(ctx):
                 ctx.functions_analysed.add(f.key)
                 good = True
                 how = []
+                defs = once_bound(f.node)
                 for r in rets:
-                    v = r.value
+                    v = resolve_name(r.value, defs)     # `view = MappingResult(self); return view`
                     if isinstance(v, ast.Name) and v.id == "self":
                         how.append("self")
                     elif isinstance(v, ast.Call) and call_name(v) == "self._column_slices":
@@ -423,6 +450,10 @@ def r4(ctx):
         """every normal exit after one of `stmts` passes a _soft_close() or a hard-closing fetch"""
         g = ctx.cfg(f)
         through = set(g.find_calls("_soft_close"))
+        # `close = self._soft_close; ...; close(hard=True)`
+        al = {n for n, v in once_bound(f.node).items() if (dotted(v) or "").endswith("._soft_close")}
+        through |= {n.id for n in g.nodes if n.stmt is not None and n.kind in ("stmt", "test") and isinstance(n.stmt, ast.stmt)
+                    and any(isinstance(c.func, ast.Name) and c.func.id in al for c in _own_calls(n))}
         through |= {n.id for n in g.nodes if n.stmt is not None and n.kind in ("stmt", "test") and isinstance(n.stmt, ast.stmt)
                     and any(_is_fetch(c, f) and any(k.arg == "hard_close" for k in c.keywords) for c in _own_calls(n))
                     and n.stmt not in stmts}
@@ -497,6 +528,13 @@ def r4(ctx):
 MANY = f"{CY}::BaseResultInternal._manyrow_getter"
 
 
+def _ancestors(pm, node):
+    cur = pm.get(node)
+    while cur is not None:
+        yield cur
+        cur = pm.get(cur)
+
+
 def _fetchmany_calls(fn):
     """Calls of the many-row fetch primitive in `fn`: self._fetchmany_impl(..) or a local alias of it."""
     alias = {n for n, v, st in name_stores(fn) if v is not None and (dotted(v) or "").endswith("._fetchmany_impl")}
@@ -566,11 +604,18 @@ def r5(ctx):
     def is_shortfall_expr(v):
         return isinstance(v, ast.BinOp) and isinstance(v.op, ast.Sub) and isinstance(v.left, ast.Name) and v.left.id == num \
             and unparse(v.right) == f"len({coll})"
-    body_assigns = [(i, st) for i, st in enumerate(loop.body) if isinstance(st, ast.Assign)
+    # anywhere in the loop (also inside `if rows: .. else: break`); "after the uniquing step" is a path property:
+    # every path from a uniquing call back to the loop test passes a recomputation
+    body_assigns = [(i, st) for i, st in enumerate(x for x in ast.walk(loop) if isinstance(x, ast.stmt)) if isinstance(st, ast.Assign)
                     and any(isinstance(x, ast.Name) and x.id == short for x in st.targets)]
-    collect_pos = [i for i, st in enumerate(loop.body) if any((call_name(c) or "").endswith("_apply_unique_strategy") for c in calls_in(st))]
-    good = bool(body_assigns) and bool(collect_pos) and all(is_shortfall_expr(st.value) for _, st in body_assigns) \
-        and body_assigns[-1][0] > max(collect_pos)
+    gl = ctx.cfg(fn)
+    collect_nodes = [n.id for n in gl.nodes if n.stmt is not None and n.kind in ("stmt", "test") and isinstance(n.stmt, ast.stmt)
+                     and any(n.stmt is x for x in ast.walk(loop))
+                     and any((call_name(c) or "").endswith("_apply_unique_strategy") for c in _own_calls(n))]
+    assign_nodes = [i for _, st in body_assigns for i in gl.nodes_for(st)]
+    from ..cfg import no_exc
+    good = bool(body_assigns) and bool(collect_nodes) and all(is_shortfall_expr(st.value) for _, st in body_assigns) \
+        and gl.must_pass(collect_nodes, gl.nodes_for(loop), assign_nodes, edge_ok=no_exc) is None
     others = [st for st in ast.walk(fn) if isinstance(st, ast.Assign) and st not in [b for _, b in body_assigns]
               and any(isinstance(x, ast.Name) and x.id == short for x in st.targets)]
     def initial_ok(st):
@@ -585,11 +630,15 @@ def r5(ctx):
     # stops on an empty batch
     rows_vars = {n for n, v, st in name_stores(fn) if v is not None and any(v is c for c in in_loop)}
     stop = False
-    for st in loop.body:
-        if isinstance(st, ast.If) and any(isinstance(x, ast.Break) for x in st.body):
-            atoms = test_atoms(st.test, True)
-            if any(a in rows_vars and not pol for a, pol in atoms):
-                stop = True
+    empty_forms = {(rv, False) for rv in rows_vars} | {(f"len({rv}) == 0", True) for rv in rows_vars} \
+        | {(f"len({rv})", False) for rv in rows_vars} | {(f"len({rv}) > 0", False) for rv in rows_vars}
+    for br in [x for x in ast.walk(loop) if isinstance(x, ast.Break)]:
+        inner = next((a for a in _ancestors(pm, br) if isinstance(a, (ast.While, ast.For))), None)
+        if inner is not loop:
+            continue
+        # `if not rows: break`, `if rows: .. else: break`, `if len(rows) == 0: break`
+        if set(guard_atoms(lexical_guards(pm, br, stop=loop))) & empty_forms:
+            stop = True
     ctx.check(stop, f"{f.key}:unique:stops-on-empty-batch",
               "the top-up loop does not break when the fetch returns no rows (an exhausted result would loop forever or "
               "report rows twice)", "if not rows: break", f"{f.module.path}:{loop.lineno}")
@@ -794,6 +843,70 @@ R.mutant("r6-partitions-caches-strategy-bound-method", "engine/cursor.py",
 R.mutant("r6-iterrows-caches-strategy", CY,
          sub("            def iterrows() -> Iterator[_R]:\n                for raw_row in self._fetchiter_impl():\n                    row = (\n                        make_row(raw_row) if make_row is not None else raw_row\n                    )\n                    if post_creational_filter is not None:",
              "            def iterrows() -> Iterator[_R]:\n                strategy_ = self.cursor_strategy\n                for raw_row in self._fetchiter_impl():\n                    strategy_.touch()\n                    row = (\n                        make_row(raw_row) if make_row is not None else raw_row\n                    )\n                    if post_creational_filter is not None:"), "C10-R6")
-R.mutant("benign-r6-strategy-read-inside-loop", "engine/cursor.py",
-         sub("        fetchone = self.cursor_strategy.fetchone\n\n        while True:\n            row = fetchone(self, self.cursor)\n",
-             "        while True:\n            fetchone = self.cursor_strategy.fetchone\n            row = fetchone(self, self.cursor)\n"), None)
+# (benign-r6-strategy-read-inside-loop: superseded by benign-e1-r6-strategy-local-inside-loop -- the anchored text was
+# changed by a fix: commit)
+
+# ---- rob-E1: benign families (stored refactors rfE_1..3 are silent; further variants of the same spirit)
+_NO_ROW_BLOCK = ("        if row is None:\n            if raise_for_none:\n                raise exc.NoResultFound(\n"
+                 "                    \"No row was found when one was required\"\n                )\n            else:\n                return None\n")
+R.mutant("benign-e1-no-row-guard-clauses", CY,
+         sub(_NO_ROW_BLOCK, "        if row is None:\n            if not raise_for_none:\n                return None\n"
+                            "            raise exc.NoResultFound(\n                \"No row was found when one was required\"\n            )\n"), None)
+R.mutant("benign-e1-no-row-merged-conditions", CY,
+         sub(_NO_ROW_BLOCK, "        if row is None and raise_for_none:\n            raise exc.NoResultFound(\n"
+                            "                \"No row was found when one was required\"\n            )\n"
+                            "        if row is None:\n            return None\n"), None)
+R.mutant("no-row-merged-conditions-wrong-flag", CY,
+         sub(_NO_ROW_BLOCK, "        if row is None and raise_for_second_row:\n            raise exc.NoResultFound(\n"
+                            "                \"No row was found when one was required\"\n            )\n"
+                            "        if row is None:\n            return None\n"), "C10-R2")
+_MULTI = ("            if next_row is not _NO_ROW:\n                self._soft_close(hard=True)\n                raise exc.MultipleResultsFound(\n"
+          "                    \"Multiple rows were found when exactly one was required\"\n                    if raise_for_none\n"
+          "                    else \"Multiple rows were found when one or none \"\n                    \"was required\"\n                )\n")
+_HELPER_AT = "    def _iter_impl(self) -> Iterator[_R]:\n        return self._iterator_getter()\n"
+R.mutant("benign-e1-multiple-rows-helper", CY,
+         chain(sub(_MULTI, "            if next_row is not _NO_ROW:\n                self._close_and_raise_multiple(raise_for_none)\n"),
+               sub(_HELPER_AT, "    def _close_and_raise_multiple(self, exactly_one: bool) -> NoReturn:\n        self._soft_close(hard=True)\n"
+                               "        raise exc.MultipleResultsFound(\n            \"Multiple rows were found when exactly one was required\"\n"
+                               "            if exactly_one\n            else \"Multiple rows were found when one or none was required\"\n        )\n\n"
+                               + _HELPER_AT)), None)
+R.mutant("multiple-rows-helper-forgets-close", CY,
+         chain(sub(_MULTI, "            if next_row is not _NO_ROW:\n                self._close_and_raise_multiple(raise_for_none)\n"),
+               sub(_HELPER_AT, "    def _close_and_raise_multiple(self, exactly_one: bool) -> NoReturn:\n"
+                               "        raise exc.MultipleResultsFound(\n            \"Multiple rows were found when exactly one was required\"\n"
+                               "            if exactly_one\n            else \"Multiple rows were found when one or none was required\"\n        )\n\n"
+                               + _HELPER_AT)), "C10-R2")
+R.mutant("benign-e1-close-through-alias", CY,
+         chain(sub("        onerow = self._fetchone_impl\n\n        row = onerow(hard_close=True)\n",
+                   "        onerow = self._fetchone_impl\n        close = self._soft_close\n\n        row = onerow(hard_close=True)\n"),
+               sub("            if next_row is not _NO_ROW:\n                self._soft_close(hard=True)\n", "            if next_row is not _NO_ROW:\n                close(hard=True)\n"),
+               sub("            # closed us :)\n            self._soft_close(hard=True)\n", "            # closed us :)\n            close(hard=True)\n")), None)
+R.mutant("benign-e1-scalar-projection-inverted", CY,
+         sub("        if scalar and make_row is not None:\n            return row[0]  # type: ignore[no-any-return]\n        else:\n            return row  # type: ignore[return-value]\n",
+             "        if not scalar or make_row is None:\n            return row  # type: ignore[return-value]\n        return row[0]  # type: ignore[no-any-return]\n"), None)
+R.mutant("benign-e1-accessor-returns-through-local", RES,
+         sub("        return self._only_one_row(\n            raise_for_second_row=True, raise_for_none=True, scalar=False\n        )\n\n    # special case to handle mypy issue:",
+             "        only_row = self._only_one_row(\n            raise_for_second_row=True, raise_for_none=True, scalar=False\n        )\n        return only_row\n\n    # special case to handle mypy issue:"), None)
+R.mutant("benign-e1-view-fetchone-through-alias", RES,
+         sub("        return self._real_result._fetchone_impl(hard_close=hard_close)",
+             "        real_result = self._real_result\n        return real_result._fetchone_impl(hard_close=hard_close)"), None)
+R.mutant("benign-e1-view-ctor-metadata-local", RES,
+         sub("    def __init__(self, result: Result[Unpack[TupleAny]]):\n        self._real_result = result\n        self._unique_filter_state = result._unique_filter_state\n        self._metadata = result._metadata\n        if result._source_supports_scalars:",
+             "    def __init__(self, result: Result[Unpack[TupleAny]]):\n        parent_metadata = result._metadata\n        self._real_result = result\n        self._unique_filter_state = result._unique_filter_state\n        self._metadata = parent_metadata\n        if result._source_supports_scalars:"), None)
+R.mutant("benign-e1-mappings-view-through-local", RES,
+         sub("        return MappingResult(self)\n", "        view = MappingResult(self)\n        return view\n"), None)
+R.mutant("benign-e1-top-up-stop-in-else", CY,
+         sub("                    rows = _manyrows(num_required)\n                    if not rows:\n                        break\n\n"
+             "                    made_rows = rows if make_rows is None else make_rows(rows)\n                    _apply_unique_strategy(\n"
+             "                        made_rows, collect, uniques, strategy\n                    )\n                    num_required = num - len(collect)\n",
+             "                    rows = _manyrows(num_required)\n                    if rows:\n"
+             "                        made_rows = (\n                            rows if make_rows is None else make_rows(rows)\n                        )\n"
+             "                        _apply_unique_strategy(\n                            made_rows, collect, uniques, strategy\n                        )\n"
+             "                        num_required = num - len(collect)\n                    else:\n                        break\n"), None)
+_ITER = "        while True:\n            row = self.cursor_strategy.fetchone(self, self.cursor)\n            if row is None:\n                break\n            yield row\n"
+R.mutant("benign-e1-r6-strategy-local-inside-loop", "engine/cursor.py",
+         sub(_ITER, "        while True:\n            fetchone = self.cursor_strategy.fetchone\n            row = fetchone(self, self.cursor)\n"
+                    "            if row is None:\n                break\n            yield row\n"), None)
+R.mutant("r6-fetchiter-caches-strategy-outside-loop", "engine/cursor.py",
+         sub(_ITER, "        fetchone = self.cursor_strategy.fetchone\n\n        while True:\n            row = fetchone(self, self.cursor)\n"
+                    "            if row is None:\n                break\n            yield row\n"), "C10-R6")
